@@ -134,9 +134,9 @@ def c19_configs(tier, seed):
     add('d4su', D=4, A='Lat22', B='Lat22', S='Lat22', dens=[1, 2], kinds=['S', 'U'])
     add('d4i', D=4, A='Lat22', B='Lat22', S='Lat22', dens=[1], kinds=['I'])
     if tier == 'quick':
-        add('d3', D=3, A='Lat22', B='Lat22', S='Lat22', dens=[1], kinds=['B'])
+        add('d3', D=3, A='Lat22', B='LatB3', S='Lat22', dens=[1], kinds=['B'])
         add('d3p', D=3, A='Lat04', B='Lat13', S='Lat04', dens=[1], kinds=['B', 'S', 'U'])
-        add('d4', D=4, A='Lat22', B='LatB2', S='Lat22', dens=[1], kinds=['B'])
+        add('d4', D=4, A='LatB4', B='LatB2', S='Lat22', dens=[1], kinds=['B'])
         add('geo', D=3, A='Lat22', B='Lat22', S='Lat22', dens=[1], kinds=['G'], mat='Mat11', stride=200, seed=seed)
     else:
         for x in ('m2', 'm1', 'z0', 'p1', 'p2'):
@@ -302,6 +302,231 @@ def run_c19(tier, seed, replay=None):
                          'the executor\'s radix conversion of float/double results (harness/vec_exec.cc: put(double)) is trusted',
                          'NaN, infinities, subnormals, signed zeros and rounding accuracy on arbitrary reals are NOT covered: TLA+ has no floating point',
                          'unsigned: ring operations modulo 2^32 on wrapped negative inputs, all other operations on non-negative inputs only'])
+    if rc == 0 and not os.environ.get('VERIF_KEEP'):
+        shutil.rmtree(work, ignore_errors=True)
+    return rc
+
+
+# =====================================================================  C20
+MESHES = dict(quick=['tet1', 'tetfan', 'polyfan', 'polydel', 'polymix', 'hex1', 'hexblock221'],
+              thorough=['tet1', 'tetfan', 'polyfan', 'polydel', 'polymix', 'hex1', 'hexblock221', 'hexblock222', 'hexblock321'])
+GEN = dict(quick=dict(ThreadCounts=[2, 3, 4, 8, 16], RndCases=2, RndLen=200, Reps=3, RepsBig=20),
+           thorough=dict(ThreadCounts=[2, 3, 4, 5, 6, 8, 12, 16], RndCases=6, RndLen=400, Reps=8, RepsBig=50))
+# (name, readers, hazard, program length, query set); hazards are negative controls: TLC must reject them
+MC = dict(quick=[('r2', 'R2', 'none', 2, 'MCQ6'), ('r3', 'R3', 'none', 2, 'MCQ3'), ('r4', 'R4', 'none', 1, 'MCQ4'),
+                 ('hz-shared', 'R2', 'shared_scratch', 1, 'MCQ4'), ('hz-lazy', 'R2', 'lazy_cache', 1, 'MCQ4')],
+          thorough=[('r2', 'R2', 'none', 3, 'MCQ6'), ('r3', 'R3', 'none', 2, 'MCQ6'), ('r4', 'R4', 'none', 2, 'MCQ3'),
+                    ('hz-shared', 'R3', 'shared_scratch', 1, 'MCQ4'), ('hz-lazy', 'R3', 'lazy_cache', 1, 'MCQ4')])
+TSAN_ENV = dict(TSAN_OPTIONS='halt_on_error=0 exitcode=0 report_thread_leaks=0 second_deadlock_stack=1')
+
+
+def c20_mc(name, readers, hazard, plen, qset, work):
+    cfg = ('SPECIFICATION Spec\nCONSTANTS\n  Readers <- %s\n  Mesh0 <- TetMesh\n  Hazard = "%s"\n  ProgLen = %d\n  MCQueries <- %s\n'
+           'INVARIANT Frame\nINVARIANT Deterministic\nPROPERTY MeshNeverChanges\nCHECK_DEADLOCK FALSE\n' % (readers, hazard, plen, qset))
+    rc, out, wall = tlc('OVMReadersMC.tla', cfg, work, 'mc-' + name, workers=max(2, min(6, JOBS // 2)), heap='8g')
+    st = tlc_stats(out)
+    txt = open(out).read()
+    viol = re.findall(r'Error: (Invariant \w+ is violated|Action property \w+ is violated|Temporal properties were violated)', txt)
+    os.remove(out)
+    return dict(name=name, readers=readers, hazard=hazard, prog_len=plen, queries=qset, rc=rc, violated=viol,
+                states=st['distinct'], transitions=st['generated'], wall=round(wall, 1))
+
+
+def q_line(q):
+    return 'Q %s %d %d %d %d %s' % (q['op'], q['a'], q['b'], q['c'], len(q['l']), ' '.join(map(str, q['l'])))
+
+
+def c20_script(mesh, alpha, cases):
+    out = ['M ' + mesh] + [q_line(q) for q in alpha]
+    for c in cases:
+        out.append('T %d %d %d' % (c['case'], c['threads'], c['reps']))
+        out += ['P %d %s' % (len(p), ' '.join(map(str, p))) for p in c['progs']]
+    return '\n'.join(out) + '\n'
+
+
+def c20_exec(variant, sp, work):
+    trace = sp[:-4] + '.' + variant + '.ndjson'
+    err = sp[:-4] + '.' + variant + '.err'
+    e = dict(os.environ); e.update(TSAN_ENV)
+    t0 = time.time()
+    with open(trace, 'w') as fo, open(err, 'w') as fe:
+        try:
+            r = subprocess.run([vlib.exe(variant, 'readers_exec'), sp], stdout=fo, stderr=fe, timeout=1800, env=e)
+        except subprocess.TimeoutExpired:
+            raise MachineryError('readers_exec (%s) timeout on %s' % (variant, sp))
+    etxt = open(err).read()
+    reports = etxt.count('WARNING: ThreadSanitizer')
+    if r.returncode != 0 and not reports:
+        raise MachineryError('readers_exec (%s) failed (exit %d) on %s: %s' % (variant, r.returncode, sp, etxt[-1500:]))
+    return dict(trace=trace, err=err, tsan_reports=reports, wall=time.time() - t0, rc=r.returncode)
+
+
+def c20_replay_file(sp, case, msg):
+    head, body, keep = [], [], False
+    for line in open(sp):
+        t = line[:2]
+        if t in ('M ', 'Q '):
+            head.append(line)
+        elif t == 'T ':
+            keep = case is None or int(line.split()[1]) == case
+            if keep:
+                body.append(line)
+        elif t == 'P ' and keep:
+            body.append(line)
+    os.makedirs(os.path.join(vlib.RUN, 'replay'), exist_ok=True)
+    txt = ''.join(head + body)
+    p = os.path.join(vlib.RUN, 'replay', 'C20-%s.txt' % hashlib.sha1((txt + msg).encode()).hexdigest()[:12])
+    open(p, 'w').write('# C20 %s\n' % msg + txt)
+    return p
+
+
+def c20_coverage_of(trace):
+    """bookkeeping for the evidence: which (mesh, query) pairs ran on >= 2 threads of one case with a non-empty answer"""
+    alpha, conc, runs, sample = None, set(), 0, None
+    for line in open(trace):
+        d = json.loads(line)
+        if d['e'] == 'alpha':
+            alpha = d['q']
+        elif d['e'] == 'run':
+            runs += 1
+            seen = {}
+            for t, p in enumerate(d['progs']):
+                for i in set(p):
+                    seen[i] = seen.get(i, 0) + 1
+            for i, n in seen.items():
+                if n >= 2 and d['seq'][i] not in (0, []):
+                    conc.add(i)
+            if sample is None and d['progs'] and d['progs'][0]:
+                i = d['progs'][-1][0]
+                sample = dict(mesh=d['mesh'], case=d['case'], threads=d['threads'], reps=d['reps'],
+                              program_prefix_thread0=[alpha[k] for k in d['progs'][0][:5]],
+                              a_query=alpha[i], its_single_threaded_answer=d['seq'][i], its_answer_on_the_last_thread=d['last'][-1][0])
+    return dict(queries=len(alpha or []), concurrent_nontrivial=len(conc), runs=runs, sample=sample)
+
+
+def run_c20(tier, seed, replay=None):
+    t0 = time.time()
+    work = os.path.join(vlib.RUN, 'C20-%s-%d' % (tier, os.getpid()))
+    shutil.rmtree(work, ignore_errors=True)
+    os.makedirs(work)
+    with ThreadPoolExecutor(max_workers=2) as ex:
+        list(ex.map(lambda v: vlib.build(v, ['readers_exec']), ['plain', 'tsan']))
+    known = vlib.load_known()
+    mc_results, scripts, gen_info = [], [], {}
+    with ThreadPoolExecutor(max_workers=3) as mcpool:
+        mc_futs = [] if replay else [mcpool.submit(c20_mc, *(m + (work,))) for m in MC[tier]]
+        if replay:
+            sp = os.path.join(work, 'replay.txt')
+            open(sp, 'w').write(''.join(l for l in open(replay) if not l.startswith('#')))
+            scripts.append(sp)
+        else:
+            # 1. the executor describes its catalogue
+            mfile = os.path.join(work, 'meshes.ndjson')
+            with open(mfile, 'w') as fo:
+                for m in MESHES[tier]:
+                    dp = os.path.join(work, 'describe.txt')
+                    open(dp, 'w').write('M %s\n' % m)
+                    r = subprocess.run([vlib.exe('plain', 'readers_exec'), dp], stdout=subprocess.PIPE, stderr=subprocess.PIPE, text=True, timeout=300)
+                    if r.returncode != 0:
+                        raise MachineryError('readers_exec cannot build mesh %s: %s' % (m, r.stderr[-1000:]))
+                    fo.write(r.stdout.splitlines()[0] + '\n')
+            # 2. TLC derives the alphabet of every mesh and the programs
+            g = GEN[tier]
+            cfg = ('SPECIFICATION Spec\nCONSTANTS\n  Seed = %d\n  ThreadCounts = %s\n  RndCases = %d\n  RndLen = %d\n  Reps = %d\n  RepsBig = %d\n'
+                   'INVARIANT EmitCase\nCHECK_DEADLOCK FALSE\n' % (seed % 100000, vlib.tla_set(g['ThreadCounts']), g['RndCases'], g['RndLen'], g['Reps'], g['RepsBig']))
+            rc, out, wall = tlc('OVMReadersGen.tla', cfg, work, 'gen', workers=2, env=dict(MESHES=mfile), heap='6g')
+            if rc != 0:
+                raise MachineryError('program generation failed:\n' + open(out).read()[-2000:])
+            alpha, cases = {}, {}
+            for line in open(out):
+                if line.startswith('<<"ALPHA"'):
+                    d = json.loads(payload(line, 'ALPHA')); alpha[d['mesh']] = d['q']
+                elif line.startswith('<<"EMIT"'):
+                    d = json.loads(payload(line, 'EMIT')); cases.setdefault(d['mesh'], []).append(d)
+            os.remove(out)
+            if set(alpha) != set(MESHES[tier]) or set(cases) != set(MESHES[tier]):
+                raise MachineryError('generation covered %s, expected %s' % (sorted(alpha), MESHES[tier]))
+            for m in MESHES[tier]:
+                cs = sorted(cases[m], key=lambda c: c['case'])
+                sp = os.path.join(work, 'rd-%s.txt' % m)
+                open(sp, 'w').write(c20_script(m, alpha[m], cs))
+                scripts.append(sp)
+                gen_info[m] = dict(queries=len(alpha[m]), cases=len(cs), threads=sorted({c['threads'] for c in cs}))
+            log('C20 gen: %d meshes, %d queries, %d cases, TLC %.0fs' % (len(alpha), sum(len(a) for a in alpha.values()),
+                                                                          sum(len(c) for c in cases.values()), wall))
+        # 3. run every script single-threaded + concurrently (plain and under ThreadSanitizer), validate the traces
+        def one(sp_variant):
+            sp, variant = sp_variant
+            x = c20_exec(variant, sp, work)
+            v = validate('OVMReadersTrace.tla', x['trace'], work, 'val-%s-%s' % (os.path.basename(sp)[:-4], variant), 'C20', heap='6g')
+            x.update(val=v, script=sp, variant=variant, cov=c20_coverage_of(x['trace']))
+            return x
+        with ThreadPoolExecutor(max_workers=max(2, JOBS // 2)) as ex:
+            runs = list(ex.map(one, [(sp, v) for sp in scripts for v in ('plain', 'tsan')]))
+        mc_results = [f.result() for f in mc_futs]
+    # ---- verdict
+    viol, rc = [], 0
+    for x in runs:
+        for b in x['val']['bads']:
+            if b['msg'].startswith('MACHINERY'):
+                raise MachineryError('trace %s: %s' % (x['trace'], b['msg']))
+            viol.append(dict(kind='trace', msg=b['msg'].split(' thread')[0], case=b['n'], script=x['script'], variant=x['variant']))
+        if x['tsan_reports']:
+            viol.append(dict(kind='tsan', msg='ThreadSanitizer', case=None, script=x['script'], variant=x['variant'], report=x['err'],
+                             head=re.sub(r'\s+', ' ', open(x['err']).read()[:1200])))
+    for m in mc_results:
+        if m['hazard'] == 'none' and m['rc'] != 0:
+            raise MachineryError('the reader model violates its own property without any hazard: %s' % m)
+        if m['hazard'] != 'none' and m['rc'] != 12:
+            raise MachineryError('negative control: TLC did not reject hazard %s (the invariants would be vacuous)' % m['hazard'])
+    seen, nknown = set(), 0
+    for v in viol:
+        sig = dict(kind=v['kind'], msg=v['msg'])
+        k = match_known('C20', sig, known)
+        if k:
+            nknown += 1
+            print('KNOWN-FINDING: property=C20 %s' % k.get('what', ''))
+            continue
+        key = (v['kind'], v['msg'], os.path.basename(v['script']))
+        if key in seen:
+            continue
+        seen.add(key)
+        p = c20_replay_file(v['script'], v['case'], '%s (%s build)' % (v['msg'], v['variant']))
+        if v['kind'] == 'tsan':
+            shutil.copy(v['report'], p + '.tsan-report')
+        print('VIOLATION property=C20 replay=%s' % p)
+        log('   %s %s' % (v['msg'], v.get('head', 'case %s of %s' % (v['case'], v['script']))))
+        rc = 1
+    nchk = sum(x['val']['done'][1] for x in runs)
+    ndrift = sum(x['val']['done'][3] for x in runs)
+    drift_ops = sorted({d['msg'] for x in runs for d in x['val']['drifts']})
+    if ndrift:
+        log('C20 DRIFT: %d single-threaded answers differ from the model\'s sequential definition (ops %s) - not a C20 violation' % (ndrift, drift_ops))
+    nruns = sum(x['cov']['runs'] for x in runs)
+    log('C20: %d concurrent runs (%d under TSan), %d answers compared, %d TSan reports, %d trace failures, model checking %s, %.0fs' %
+        (nruns, sum(x['cov']['runs'] for x in runs if x['variant'] == 'tsan'), nchk, sum(x['tsan_reports'] for x in runs),
+         sum(len(x['val']['bads']) for x in runs), [(m['name'], m['states']) for m in mc_results], time.time() - t0))
+    plain = [x for x in runs if x['variant'] == 'plain']
+    cov = dict(evaluations=nchk,
+               distinct_nontrivial=sum(x['cov']['concurrent_nontrivial'] for x in plain),
+               rule=('TLC derives from the logged projection of every catalogue mesh the alphabet of const queries (every query with every '
+                     'in-contract argument over the live entities) and per-thread programs: "rot" cases in which each of the T threads runs the '
+                     'whole alphabet from a different offset, and seeded random programs. evaluations = answers compared by the trace spec '
+                     '(every answer of every thread in the first and last repetition, and the single-threaded answers before/after). '
+                     'distinct_nontrivial = distinct (mesh, query) pairs that at least two threads of one run executed and whose answer is a '
+                     'non-empty list, counted from the recorded plain-build traces.'),
+               samples=[x['cov']['sample'] for x in plain if x['cov']['sample']][:3],
+               meshes=gen_info, concurrent_runs=nruns, thread_counts=sorted({t for g in gen_info.values() for t in g['threads']}),
+               tsan=dict(runs=sum(x['cov']['runs'] for x in runs if x['variant'] == 'tsan'), reports=sum(x['tsan_reports'] for x in runs),
+                         options=TSAN_ENV['TSAN_OPTIONS']),
+               model_checking=mc_results, states=sum(m['states'] for m in mc_results if m['hazard'] == 'none'),
+               transitions=sum(m['transitions'] for m in mc_results if m['hazard'] == 'none'),
+               traces_validated_against_impl=nruns, drift_answers=ndrift, drift_ops=drift_ops, known_findings_seen=nknown)
+    vlib.write_evidence('C20', tier, seed, 'exploration', cov, time.time() - t0, len(seen),
+                        ['data-race freedom is OBSERVED by ThreadSanitizer (gcc libtsan) while the generated programs run; it is not derived from the specification',
+                         'TLC and the CommunityModules JSON bridge are trusted; the executor\'s projection (harness/ovm_state.hh dump_state + positions + reader properties) is trusted',
+                         'the interleavings that actually occur are chosen by the OS scheduler; TLC explores all interleavings of the MODEL only',
+                         'property creation / destruction on a const mesh is excluded by the property statement and never executed concurrently'])
     if rc == 0 and not os.environ.get('VERIF_KEEP'):
         shutil.rmtree(work, ignore_errors=True)
     return rc
